@@ -14,6 +14,7 @@ import (
 
 	"go.opentelemetry.io/collector/component"
 	"go.opentelemetry.io/collector/component/componenttest"
+	"go.opentelemetry.io/collector/exporter/exporterhelper/internal/experr"
 	"go.opentelemetry.io/collector/exporter/exporterhelper/internal/queuebatch"
 	"go.opentelemetry.io/collector/exporter/exporterhelper/internal/request"
 	"go.opentelemetry.io/collector/pipeline"
@@ -152,9 +153,13 @@ type c02Cfg struct {
 	// WriteFaults: ordinals (1-based) of the persistent queue's item writes (the Offer transaction) that fail: that
 	// Offer returns the error and nothing about the queue changes
 	WriteFaults []int `json:"storage_write_faults,omitempty"`
+	// ShutErrs: completions may also carry a shutdown-class error (what the retry sender returns for a request it
+	// gave up because of its own shutdown): for the running queue it is one more way for a request to finish
+	ShutErrs bool `json:"shutdown_class_completions,omitempty"`
 }
 
 var errBackend = errors.New("sim backend failure")
+var errShutClass = experr.NewShutdownErr(errors.New("sim: request interrupted by the sender's shutdown"))
 
 var yieldSites = []string{"cond.wait", "cond.woken.cancel", "cond.woken.signal"}
 
@@ -185,7 +190,26 @@ func c02Config(tp *simkit.Tape) c02Cfg {
 		if tp.Chance(1, 2) {
 			c.WriteFaults = append(c.WriteFaults, tp.Range(1, 6))
 		}
+	} else if c.Persistent && c.Producers >= 2 && tp.Chance(1, 2) {
+		// several producers: only the Offer transaction fails (a read fault needs the one-producer admission order)
+		if c.Block && tp.Chance(1, 2) {
+			// a full disk: a window of consecutive writes fails, with more producers than the queue has room for
+			c.Producers += tp.Range(1, 3)
+			if tp.Chance(2, 3) {
+				c.Cap = int64(tp.Range(1, 2))
+			}
+			from, n := tp.Range(2, 5), tp.Range(2, 6)
+			for i := 0; i < n; i++ {
+				c.WriteFaults = append(c.WriteFaults, from+i)
+			}
+		} else {
+			n := tp.Range(1, 3)
+			for i := 0; i < n; i++ {
+				c.WriteFaults = append(c.WriteFaults, tp.Range(1, 10))
+			}
+		}
 	}
+	c.ShutErrs = tp.Chance(1, 3)
 	return c
 }
 
@@ -232,7 +256,7 @@ func runC02(r *simkit.Run) {
 	disk := NewDisk()
 	inc := disk.NewIncarnation(1)
 	host := &simHost{ext: map[component.ID]component.Component{storageID: inc}}
-	if len(cfg.ReadFaults) > 0 {
+	if len(cfg.ReadFaults)+len(cfg.WriteFaults) > 0 {
 		reads, writes := 0, 0
 		inc.FailIf = func(_ int, ops []string) bool {
 			for _, op := range ops {
@@ -356,6 +380,9 @@ func runC02(r *simkit.Run) {
 			id := id
 			ch = append(ch, simkit.Choice{Name: "done-ok:" + id, W: 2, Fire: func() { s.complete(id, nil) }})
 			ch = append(ch, simkit.Choice{Name: "done-err:" + id, W: 1, Fire: func() { s.complete(id, errBackend) }})
+			if cfg.ShutErrs {
+				ch = append(ch, simkit.Choice{Name: "done-shut:" + id, W: 1, Fire: func() { s.complete(id, errShutClass) }})
+			}
 		}
 		for _, p := range s.prods {
 			// Cancellation is delivered only to a producer that sits in a select (waiting for space or for its
@@ -517,6 +544,9 @@ func (s *c02Sim) complete(gateID string, outcome error) {
 	q.outcome = outcome
 	if outcome != nil {
 		s.r.Count("fault.backend_error")
+	}
+	if outcome == errShutClass {
+		s.r.Count("fault.shutdown_class_completion")
 	}
 	// The backend answers; the model releases the size when the completion callback has run: in this step, unless the
 	// completing consumer gets parked at a lock site inside the callback (observe decides).
